@@ -248,9 +248,9 @@ func (f *FibStrategyTree) GetAllFIBEntries() []FibStrategyEntry {
 			queue.PushFront(child)
 		}
 
-		// If has any nexthop entries, add to list
+		// If has any nexthop entries, add (a snapshot) to list
 		if len(fsEntry.nexthops) > 0 {
-			entries = append(entries, fsEntry)
+			entries = append(entries, fsEntry.snapshot())
 		}
 	}
 	return entries
@@ -299,9 +299,9 @@ func (f *FibStrategyTree) GetAllForwardingStrategies() []FibStrategyEntry {
 			queue.PushFront(child)
 		}
 
-		// If has any nexthop entries, add to list
+		// If has a strategy, add (a snapshot) to list
 		if fsEntry.strategy != nil {
-			entries = append(entries, fsEntry)
+			entries = append(entries, fsEntry.snapshot())
 		}
 	}
 	return entries
